@@ -229,6 +229,30 @@ func scenarioC02(r *Run) {
 		r.Outcome("seam-not-reached")
 		return
 	}
+	// a verifier that says no is final: it is consulted once, with the
+	// reference content, and its refusal is what Verify returns
+	{
+		sp3 := acceptingVerifiers(pm, keysOf(spec))
+		for _, s := range sp3 {
+			s.Fault = "reject"
+		}
+		rerr := r.VerifyLib(rc, external, asVerifiers(sp3)...)
+		r.Check()
+		for i, s := range sp3 {
+			if len(s.Calls) > 1 {
+				r.Fail("verifier-consulted-again-after-refusing/"+spec.Kind.String(), "verifier %d refused and was consulted %d times; second content %s (first %s)\nwire: %s", i, len(s.Calls), hexShort(s.Calls[1].Content), hexShort(s.Calls[0].Content), hexShort(received))
+				return
+			}
+			if len(s.Calls) == 1 && i < len(want) && !bytes.Equal(s.Calls[0].Content, want[i]) {
+				r.Fail("verify-content-differs/"+spec.Kind.String()+"/"+population, "content handed to (refusing) verifier %d differs from the reference Sig_structure", i)
+				return
+			}
+		}
+		if len(sp3) > 0 && len(sp3[0].Calls) == 1 && rerr == nil {
+			r.Fail("verifier-refusal-overruled/"+spec.Kind.String(), "the verifier refused and Verify returned nil\nwire: %s", hexShort(received))
+			return
+		}
+	}
 	// verifying the same decoded message a second time hands over the same bytes
 	{
 		sp2 := acceptingVerifiers(pm, keysOf(spec))
